@@ -176,7 +176,7 @@ def run_unit(u, rec):
                     prev = a
             rec.sample({"generator": g, "D": D, "N": N, "options": "cutoff x (std_one,max_one) x offset_range", "keys": keys})
         elif g in ("GaussianRandomField", "DiffusedNoise"):
-            for (zm, so, mo), par, L in itertools.product(FLAGS, ((3.0, 1e-3), (1.5, 5e-3)), (1.0, 2.5)):
+            for (zm, so, mo), par, L in itertools.product(FLAGS, ((3.0, 1e-3), (1.5, 5e-3)), (1.0, 2.5, 30.0)):
                 kw = dict(domain_extent=L, zero_mean=zm, std_one=so, max_one=mo)
                 if g == "GaussianRandomField":
                     kw["powerlaw_exponent"] = par[0]
